@@ -11,6 +11,7 @@ import (
 	"context"
 	"crypto/tls"
 	"encoding/json"
+	"errors"
 	"fmt"
 	"net"
 	"net/http"
@@ -306,6 +307,9 @@ func waitFor(pred func() bool, d time.Duration) bool {
 
 // Replay runs one fault case.
 func Replay(c Case) Result {
+	if c.Cfg.Moment == "handshake" {
+		return replayHandshake(c)
+	}
 	res := Result{N: c.N, Cfg: c.Cfg}
 	r := &rec{}
 	ln, err := net.Listen("tcp", "127.0.0.1:0")
@@ -446,6 +450,94 @@ func Replay(c Case) Result {
 		endRes = "close-hangs"
 	}
 	// every connection the client ever made is closed by now (the old ones when it replaced them)
+	waitFor(func() bool { return r.count("released") >= r.count("session") }, 2*time.Second)
+	r.log(Event{K: "end", Res: endRes})
+	r.mu.Lock()
+	res.Actual = append([]Event(nil), r.evs...)
+	r.mu.Unlock()
+	return res
+}
+
+type markKey struct{}
+
+// replayHandshake: the first connection the client makes on behalf of Establish is answered with a
+// session envelope that is not 'established' (Fault = the state sent instead); every later one is
+// served normally. Establish may report success only once a session really is established (C08 at
+// the level of the Client).
+func replayHandshake(c Case) Result {
+	res := Result{N: c.N, Cfg: c.Cfg}
+	r := &rec{}
+	ln, err := net.Listen("tcp", "127.0.0.1:0")
+	if err != nil {
+		res.Note = "listen: " + err.Error()
+		return res
+	}
+	defer ln.Close()
+	var conns int32
+	go func() {
+		for {
+			cn, err := ln.Accept()
+			if err != nil {
+				return
+			}
+			n := int(atomic.AddInt32(&conns, 1))
+			go func(cn net.Conn, n int) {
+				dec := json.NewDecoder(bufio.NewReader(cn))
+				var m map[string]interface{}
+				cn.SetReadDeadline(time.Now().Add(3 * time.Second))
+				if dec.Decode(&m) != nil {
+					cn.Close()
+					return
+				}
+				cn.SetReadDeadline(time.Time{})
+				sid := fmt.Sprintf("5e551041-0000-4000-8000-%012x", n)
+				if n == 1 {
+					r.log(Event{K: "badhs", N: n, Res: c.Cfg.Fault})
+					fmt.Fprintf(cn, `{"id":%q,"from":"postmaster@example.com/srv","to":"cli@example.com/i","state":%q}`+"\n", sid, c.Cfg.Fault)
+				} else {
+					fmt.Fprintf(cn, `{"id":%q,"from":"postmaster@example.com/srv","to":"cli@example.com/i","state":"established"}`+"\n", sid)
+					r.log(Event{K: "session", N: n})
+					defer r.log(Event{K: "released", N: n})
+				}
+				for dec.Decode(&m) == nil {
+					if st, _ := m["state"].(string); st == "finishing" {
+						fmt.Fprintf(cn, `{"id":%q,"from":"postmaster@example.com/srv","state":"finished"}`+"\n", sid)
+						break
+					}
+				}
+				cn.Close()
+			}(cn, n)
+		}
+	}()
+	addr := ln.Addr()
+	cfg := lime.NewClientConfig()
+	cfg.Node = lime.Node{Identity: lime.Identity{Name: "cli", Domain: "example.com"}, Instance: "i"}
+	cfg.NewTransport = func(ctx context.Context) (lime.Transport, error) {
+		if ctx.Value(markKey{}) == nil {
+			return nil, errors.New("only Establish gets a connection in this case") // the listener's own attempts
+		}
+		return lime.DialTcp(ctx, addr, &lime.TCPConfig{})
+	}
+	cfg.Authenticator = func([]lime.AuthenticationScheme, lime.Authentication) lime.Authentication {
+		return &lime.GuestAuthentication{}
+	}
+	client := lime.NewClient(cfg, &lime.EnvelopeMux{})
+	ctx, cancel := context.WithTimeout(context.WithValue(context.Background(), markKey{}, true), 4*time.Second)
+	err = client.Establish(ctx)
+	cancel()
+	if err == nil {
+		r.log(Event{K: "hlret", Res: "nil"})
+	} else {
+		r.log(Event{K: "hlret", Res: "err"})
+	}
+	closed := make(chan struct{})
+	go func() { _ = client.Close(); close(closed) }()
+	endRes := "closed"
+	select {
+	case <-closed:
+	case <-time.After(8 * time.Second):
+		endRes = "close-hangs"
+	}
 	waitFor(func() bool { return r.count("released") >= r.count("session") }, 2*time.Second)
 	r.log(Event{K: "end", Res: endRes})
 	r.mu.Lock()
